@@ -84,6 +84,7 @@ impl SignaturePublisher for RecordingPublisher {
 }
 
 /// Everything that survives a signer restart.
+#[allow(dead_code)]
 pub struct Env {
     pub party_id: String,
     pub config: Configuration,
@@ -116,6 +117,7 @@ impl Env {
         initial_epoch: u64,
         salt: u8,
         kes_dir: &Path,
+        store_retention_limit: Option<usize>,
     ) -> anyhow::Result<Env> {
         let party_id = sut.party_id.clone();
         let initial_block = 100u64;
@@ -131,6 +133,7 @@ impl Env {
         let mut config = Configuration::new_sample(&party_id);
         config.db_directory = work_folder.join("db");
         config.data_stores_directory = work_folder.join("stores");
+        config.store_retention_limit = store_retention_limit;
         config.kes_secret_key_path = Some(kes_dir.join("kes.sk"));
         config.operational_certificate_path = Some(kes_dir.join("opcert.cert"));
         // production publisher chain, without wall-clock waits
@@ -252,7 +255,7 @@ impl Env {
         ));
         let aggregator_client = AggregatorHttpClient::builder(self.agg.url.clone())
             .with_api_version_provider(api_version_provider.clone())
-            .with_timeout(Duration::from_secs(20))
+            .with_timeout(Duration::from_secs(300))
             .with_logger(logger.clone())
             .build()
             .map(Arc::new)?;
